@@ -19,7 +19,8 @@ RULE = ('E2 histories with master restarts; at every restart, right after '
         'asserted). Non-trivial = a restart that compared >=3 stored entries '
         'on >=2 servers with >=1 identity or lease among them. distinct = '
         'canonical JSON.'
-        ' Since rounds 6-7: allocation changes and partition reboot-schedule changes (read by masters only at start) before the restart; leased instances on old servers.')
+        ' Since rounds 6-7: allocation changes and partition reboot-schedule changes (read by masters only at start) before the restart; leased instances on old servers.'
+        " Since round 8: rack definitions deleted under their servers; such servers are not 'still offering' (the topology a new master builds does not contain them).")
 ASSUMPTIONS = [
     'fake ZooKeeper stands in for the ensemble; ctime ordering follows the '
     'virtual clock, which the harness advances before every external write',
